@@ -274,13 +274,33 @@ func C19(r *core.Run) {
 			Repro:  []string{fmt.Sprintf("printf %%s %s | crs-toolchain -d <root with regex-assembly/> regex generate -", core.ShellQuote(stdin))},
 		})
 	}
+	unconfirmed := 0
 	for _, d := range deaths {
-		if d.Kind == "hang" {
-			r.Report(core.Violation{Clause: "terminates", Key: d.Case, What: fmt.Sprintf("generate does not terminate within %ds on %q", core.WatchdogSeconds, d.Case), Detail: d})
-		} else {
+		// a worker that hung or died is only evidence: the input is replayed through the real CLI (60 s limit)
+		mode, text, _ := strings.Cut(d.Case, ":")
+		tree := c19Tree()
+		stdin := text
+		if mode == "include" {
+			tree["regex-assembly/include/inc.ra"] = text
+			stdin = "##!> include inc\n"
+		}
+		sd := core.Scratch("c19d")
+		tree.Materialise(sd)
+		cli := core.RunCLI(r.Crs, sd, stdin, nil, "-d", sd, "regex", "generate", "-")
+		os.RemoveAll(sd)
+		switch {
+		case text == "":
 			r.Report(core.Violation{Clause: "no-runtime-fault", Key: "fatal:" + d.Case, What: fmt.Sprintf("worker process died (fatal error) on %q", d.Case), Detail: d})
+		case cli.TimedOut:
+			r.Report(core.Violation{Clause: "terminates", Key: d.Case, What: fmt.Sprintf("generate does not terminate (%d s of CPU in-process, 60 s through the CLI) on %q", core.WatchdogSeconds, d.Case), Detail: d})
+		case strings.Contains(cli.Stderr, "runtime error") || strings.Contains(cli.Stderr, "fatal error:") || strings.Contains(cli.Stderr, "goroutine ") && cli.Exit == 2 && !strings.Contains(cli.Stderr, "zerolog"):
+			r.Report(core.Violation{Clause: "no-runtime-fault", Key: "fatal:" + d.Case, What: fmt.Sprintf("generate dies with a runtime fault on %q: %s", d.Case, tailStr(cli.Stderr, 200)), Detail: d})
+		default:
+			unconfirmed++
+			fmt.Fprintf(os.Stderr, "NOTE: worker %s/%d %s on %q, but the CLI handles that input (exit %d): not counted; the rest of that shard was not explored\n", d.Stage, d.Shard, d.Kind, d.Case, cli.Exit)
 		}
 	}
+	r.Cov["worker_deaths_not_confirmed_by_cli"] = unconfirmed
 	nt := 0
 	for _, l := range []int{in.TokMax} {
 		p := 1
